@@ -245,15 +245,31 @@ func (v *Verifier) scriptOpt(o *Oblig, getValues []string, filtered bool, dropQu
 			}
 			names = append(names, n)
 			fmt.Fprintf(&sb, "(assert (= (gstr.len %s) %d))\n", n, len(lit))
+			// the bytes of a short literal are facts, not assumptions
+			if fns["gstr.bytes"] && len(lit) <= 64 {
+				for i := 0; i < len(lit); i++ {
+					bv := fmt.Sprintf("%d", lit[i])
+					if v.mode == "bv" {
+						bv = fmt.Sprintf("#x%02x", lit[i])
+					}
+					fmt.Fprintf(&sb, "(assert (= (select (gstr.bytes %s) %d) %s))\n", n, i, bv)
+				}
+			}
 		}
 		if len(names) > 1 {
 			fmt.Fprintf(&sb, "(assert (distinct %s))\n", strings.Join(names, " "))
 		}
 	}
 	if fns["pow2"] {
-		for k := 0; k <= 64; k++ {
+		for k := 0; k <= 128; k++ {
+			if k > 64 && k%8 != 0 {
+				continue
+			}
 			fmt.Fprintf(&sb, "(assert (= (pow2 %d) %s))\n", k, Pow2(k).String())
 		}
+	}
+	if fns["pow2"] {
+		sb.WriteString("(assert (forall ((n Int)) (! (=> (>= n 0) (>= (pow2 n) 1)) :pattern ((pow2 n)))))\n")
 	}
 	if fns["nlmul"] {
 		sb.WriteString("(assert (forall ((x Int) (y Int)) (! (= (nlmul x y) (nlmul y x)) :pattern ((nlmul x y)))))\n")
